@@ -39,6 +39,240 @@ func artefacts(src string) map[string]string {
 	return r
 }
 
+
+// declErrorKinds are families of declaration-level mistakes; each is applied
+// to several distinct names of ONE scope, so that an error list collected by
+// ranging over a lookup table (Go map) instead of the declaration list shows
+// as a different text on repetition.
+var declErrorKinds = []string{"chunk-out-shadows-stage-out", "chunk-in-shadows-stage-in", "duplicate-in-params", "duplicate-out-params",
+	"unknown-param-types", "stage-retain-unknown", "duplicate-call-ids", "missing-arguments", "unknown-arguments", "unknown-returns",
+	"missing-returns", "duplicate-struct-fields", "unknown-struct-field-types", "unused-pipeline-inputs", "pipeline-retain-unknown",
+	"duplicate-callables", "duplicate-bindings"}
+
+func shuffled[T any](t *rapid.T, xs []T, label string) []T {
+	out := append([]T{}, xs...)
+	for i := len(out) - 1; i > 0; i-- {
+		j := rapid.IntRange(0, i).Draw(t, label)
+		out[i], out[j] = out[j], out[i]
+	}
+	return out
+}
+
+// injectDeclErrors applies one family; it returns the family and the number
+// of instances injected (0: the program has no place for it).
+func injectDeclErrors(t *rapid.T, prog *mrogen.Program) (string, int) {
+	kind := rapid.SampledFrom(declErrorKinds).Draw(t, "declErrKind")
+	k := rapid.IntRange(2, 5).Draw(t, "declErrN")
+	intT := mrogen.Ty{Base: "int"}
+	names := shuffled(t, []string{"zz_q", "zz_b", "zz_m", "zz_x", "zz_d"}, "nameOrder")[:k]
+	pickStage := func(ok func(*mrogen.Stage) bool) *mrogen.Stage {
+		var c []*mrogen.Stage
+		for _, st := range prog.Stages {
+			if ok(st) {
+				c = append(c, st)
+			}
+		}
+		if len(c) == 0 {
+			return nil
+		}
+		return c[rapid.IntRange(0, len(c)-1).Draw(t, "declErrStage")]
+	}
+	pickPipe := func(ok func(*mrogen.Pipeline) bool) *mrogen.Pipeline {
+		var c []*mrogen.Pipeline
+		for _, pl := range prog.Pipelines {
+			if ok(pl) {
+				c = append(c, pl)
+			}
+		}
+		if len(c) == 0 {
+			return nil
+		}
+		return c[rapid.IntRange(0, len(c)-1).Draw(t, "declErrPipe")]
+	}
+	anyStage := func(*mrogen.Stage) bool { return true }
+	switch kind {
+	case "chunk-out-shadows-stage-out", "chunk-in-shadows-stage-in":
+		st := pickStage(anyStage)
+		if st == nil {
+			return kind, 0
+		}
+		st.Split = true
+		for _, n := range names {
+			if kind == "chunk-out-shadows-stage-out" {
+				st.Outs = append(st.Outs, mrogen.Param{Name: n, T: intT})
+				st.ChunkOuts = append(st.ChunkOuts, mrogen.Param{Name: n, T: intT})
+			} else {
+				st.Ins = append(st.Ins, mrogen.Param{Name: n, T: intT})
+				st.ChunkIns = append(st.ChunkIns, mrogen.Param{Name: n, T: intT})
+			}
+		}
+		if kind == "chunk-in-shadows-stage-in" {
+			// every caller would miss the new inputs: bind them
+			for _, pl := range prog.Pipelines {
+				for _, c := range pl.Calls {
+					if c.Callee == st.Name {
+						for _, n := range names {
+							c.Bindings = append(c.Bindings, mrogen.Binding{Param: n, E: mrogen.Lit{V: nil, T: intT}})
+						}
+					}
+				}
+			}
+		}
+		st.ChunkOuts = shuffled(t, st.ChunkOuts, "chunkOutOrder")
+		st.ChunkIns = shuffled(t, st.ChunkIns, "chunkInOrder")
+		return kind, k
+	case "duplicate-in-params", "duplicate-out-params", "unknown-param-types":
+		st := pickStage(anyStage)
+		if st == nil {
+			return kind, 0
+		}
+		for i, n := range names {
+			switch kind {
+			case "duplicate-in-params":
+				st.Ins = append(st.Ins, mrogen.Param{Name: n, T: intT}, mrogen.Param{Name: n, T: intT})
+			case "duplicate-out-params":
+				st.Outs = append(st.Outs, mrogen.Param{Name: n, T: intT}, mrogen.Param{Name: n, T: intT})
+			default:
+				st.Outs = append(st.Outs, mrogen.Param{Name: n, T: mrogen.Ty{Base: fmt.Sprintf("zzunknown%d", (i*7+3)%10)}})
+			}
+		}
+		return kind, k
+	case "stage-retain-unknown":
+		st := pickStage(anyStage)
+		if st == nil {
+			return kind, 0
+		}
+		st.Retain = append(st.Retain, names...)
+		return kind, k
+	case "pipeline-retain-unknown":
+		pl := pickPipe(func(pl *mrogen.Pipeline) bool { return len(pl.Calls) > 0 })
+		if pl == nil {
+			return kind, 0
+		}
+		for _, n := range names {
+			pl.Retain = append(pl.Retain, mrogen.Ref{Call: pl.Calls[0].Id, Out: n})
+		}
+		return kind, k
+	case "duplicate-call-ids":
+		pl := pickPipe(func(pl *mrogen.Pipeline) bool { return len(pl.Calls) >= 2 })
+		if pl == nil {
+			return kind, 0
+		}
+		n := 0
+		for _, c := range append([]*mrogen.Call{}, pl.Calls...) {
+			if n < k && !c.Preflight {
+				cp := *c
+				pl.Calls = append(pl.Calls, &cp)
+				n++
+			}
+		}
+		return kind, n
+	case "missing-arguments", "unknown-arguments", "duplicate-bindings":
+		type site struct{ c *mrogen.Call }
+		var sites []site
+		for _, pl := range prog.Pipelines {
+			for _, c := range pl.Calls {
+				if len(c.Bindings) >= 2 && !c.WildcardSelf {
+					sites = append(sites, site{c})
+				}
+			}
+		}
+		if len(sites) == 0 {
+			return kind, 0
+		}
+		c := sites[rapid.IntRange(0, len(sites)-1).Draw(t, "declErrCall")].c
+		switch kind {
+		case "missing-arguments":
+			var keep []mrogen.Binding
+			n := 0
+			for _, b := range c.Bindings {
+				if _, isSplit := b.E.(mrogen.Split); isSplit || n >= k {
+					keep = append(keep, b)
+				} else {
+					n++
+				}
+			}
+			c.Bindings = keep
+			return kind, n
+		case "unknown-arguments":
+			for _, n := range names {
+				c.Bindings = append(c.Bindings, mrogen.Binding{Param: n, E: mrogen.Lit{V: nil, T: intT}})
+			}
+			return kind, k
+		default:
+			n := 0
+			for _, b := range append([]mrogen.Binding{}, c.Bindings...) {
+				if n < k {
+					c.Bindings = append(c.Bindings, b)
+					n++
+				}
+			}
+			return kind, n
+		}
+	case "unknown-returns", "missing-returns":
+		pl := pickPipe(func(pl *mrogen.Pipeline) bool { return len(pl.Ret) >= 2 || kind == "unknown-returns" })
+		if pl == nil {
+			return kind, 0
+		}
+		if kind == "unknown-returns" {
+			for _, n := range names {
+				pl.Ret = append(pl.Ret, mrogen.Binding{Param: n, E: mrogen.Lit{V: nil, T: intT}})
+			}
+			return kind, k
+		}
+		n := len(pl.Ret)
+		pl.Ret = nil
+		return kind, n
+	case "duplicate-struct-fields", "unknown-struct-field-types":
+		if len(prog.U.Structs) == 0 {
+			return kind, 0
+		}
+		st := prog.U.Structs[rapid.IntRange(0, len(prog.U.Structs)-1).Draw(t, "declErrStruct")]
+		for i, n := range names {
+			if kind == "duplicate-struct-fields" {
+				st.Fields = append(st.Fields, mrogen.Field{Name: n, T: intT}, mrogen.Field{Name: n, T: intT})
+			} else {
+				st.Fields = append(st.Fields, mrogen.Field{Name: n, T: mrogen.Ty{Base: fmt.Sprintf("zzunknown%d", (i*7+3)%10)}})
+			}
+		}
+		return kind, k
+	case "unused-pipeline-inputs":
+		pl := pickPipe(func(pl *mrogen.Pipeline) bool { return true })
+		if pl == nil {
+			return kind, 0
+		}
+		for _, n := range names {
+			pl.Ins = append(pl.Ins, mrogen.Param{Name: n, T: intT})
+		}
+		for _, opl := range prog.Pipelines {
+			for _, oc := range opl.Calls {
+				if oc.Callee == pl.Name {
+					for _, n := range names {
+						oc.Bindings = append(oc.Bindings, mrogen.Binding{Param: n, E: mrogen.Lit{V: nil, T: intT}})
+					}
+				}
+			}
+		}
+		if prog.Top.Callee == pl.Name {
+			for _, n := range names {
+				prog.Top.Bindings = append(prog.Top.Bindings, mrogen.Binding{Param: n, E: mrogen.Lit{V: nil, T: intT}})
+			}
+		}
+		return kind, k
+	case "duplicate-callables":
+		n := 0
+		for _, st := range append([]*mrogen.Stage{}, prog.Stages...) {
+			if n < k {
+				cp := *st
+				prog.Stages = append(prog.Stages, &cp)
+				n++
+			}
+		}
+		return kind, n
+	}
+	return kind, 0
+}
+
 // TestC10Deterministic: formatted text, compile errors, the include-expanded
 // source and the serialized call graph are byte-identical over repetitions.
 func TestC10Deterministic(t *testing.T) {
@@ -94,6 +328,16 @@ func TestC10Deterministic(t *testing.T) {
 				}
 			}
 		}
+		declKind := ""
+		if nerr == 0 && rapid.IntRange(0, 2).Draw(t, "declErrors") == 0 {
+			// several declaration-level errors in one scope
+			declKind, nerr = injectDeclErrors(t, prog)
+		}
+		if rapid.IntRange(0, 2).Draw(t, "strictLevel") == 0 {
+			// the strictest enforcement level reports more (mro check --strict=error)
+			syntax.SetEnforcementLevel(syntax.EnforceError)
+			defer syntax.SetEnforcementLevel(syntax.EnforceDisable)
+		}
 		lay := &mrogen.Layout{Pick: func(n int) int { return rapid.IntRange(0, n-1).Draw(t, "lay") }, Comments: rapid.Bool().Draw(t, "comments")}
 		src := prog.Source(lay)
 		first := artefacts(src)
@@ -112,6 +356,12 @@ func TestC10Deterministic(t *testing.T) {
 		}
 		if _, ok := first["call-graph"]; ok {
 			classes = append(classes, "call-graph")
+		}
+		if declKind != "" && nerr > 0 {
+			classes = append(classes, "decl-errors:"+declKind)
+			if first["compile-error"] == "<nil>" {
+				classes = append(classes, "decl-errors-accepted:"+declKind)
+			}
 		}
 		stats.Case("C10", wide || nerr >= 2, stats.Digest(src), classes, func() any {
 			return map[string]any{"kind": "pure", "errors_injected": nerr, "compile_error": stats.Trunc(first["compile-error"], 400), "source": stats.Trunc(src, 600)}
